@@ -37,8 +37,8 @@ PROPS = {
     "C01": {
         "suites": ["c01"],
         "level": "proof",
-        "proof_module": "GeoProofs.Props.C01",
-        "theorems": ["Geo.containsPoint_fold_perm", "Geo.ringContainsPoint_hit_iff", "Geo.ringContainsPoint_hit_iff_none", "Geo.ringContainsPoint_hit_iff_quadtree", "Geo.ringContainsPoint_idx_on", "Geo.rectRing_containsPoint_iff", "Geo.polyContainsPoint_iff", "Geo.lineContainsPoint_iff", "Geo.rectContainsPoint_iff", "Geo.ringContainsPoint_index_indep"],
+        "proof_module": "GeoProofs.Props.C01Index",
+        "theorems": ["Geo.containsPoint_fold_perm", "Geo.ringContainsPoint_hit_iff", "Geo.ringContainsPoint_hit_iff_none", "Geo.ringContainsPoint_hit_iff_quadtree", "Geo.ringContainsPoint_idx_on", "Geo.rectRing_containsPoint_iff", "Geo.polyContainsPoint_iff", "Geo.lineContainsPoint_iff", "Geo.rectContainsPoint_iff", "Geo.ringContainsPoint_index_indep", "Geo.ringContainsPoint_hit_iff_rtree", "Geo.polyContainsPoint_iff_rtree", "Geo.lineContainsPoint_iff_rtree"],
         "trivial_sigs": set(),
         "rule": "every ring of 3..4 vertices (5 thorough) on the 3x3 lattice against all 49 half-step query points, rotating through "
                 "index configurations; random lines, rects, arbitrary and valid polygons (with holes, >=64 vertices) under 8 index "
@@ -49,7 +49,7 @@ PROPS = {
         "suites": ["c04"],
         "level": "proof",
         "proof_module": "GeoProofs.Props.C04",
-        "theorems": ["Geo.qtree_search_exact", "Geo.rtree_search_exact", "Geo.rtree_search_exact_of_NE", "Geo.rBuild_items_counterexample", "Geo.readNum_appendNum", "Geo.qSearchTree_eq_foldUntil", "Geo.qVisit_perm_filter", "Geo.qInsert_inv", "Geo.qInsert_items", "Geo.qBuild_spec", "Geo.rSearchTree_eq_foldUntil", "Geo.rVisit_eq_filter", "Geo.splitEntries_perm", "Geo.rBuild_spec'", "Geo.series_search_exact_none", "Geo.series_search_exact_quadtree", "Geo.series_search_exact_rtree", "Geo.segBox_inside_rect"],
+        "theorems": ["Geo.qtree_search_exact", "Geo.rtree_search_exact", "Geo.rtree_search_exact_of_NE", "Geo.rBuild_items_counterexample", "Geo.readNum_appendNum", "Geo.qSearchTree_eq_foldUntil", "Geo.qVisit_perm_filter", "Geo.qInsert_inv", "Geo.qInsert_items", "Geo.qBuild_spec", "Geo.rSearchTree_eq_foldUntil", "Geo.rVisit_eq_filter", "Geo.splitEntries_perm", "Geo.rBuild_spec'", "Geo.series_search_exact_none", "Geo.series_search_exact_quadtree", "Geo.series_search_exact_rtree", "Geo.segBox_inside_rect", "Geo.series_search_exact_rtree_dyadic", "Geo.series_search_exact_dyadic", "Geo.decF64_encF64", "Geo.rtree_search_exact_patched", "Geo.rBuild_good"],
         "trivial_sigs": {"se0"},
         "rule": "series of sizes 0..1000 (..70000 thorough) in 7 layouts, open and closed, under no index / R-tree / quadtree: index bytes "
                 "compared with the model's, searches with strip, infinite, degenerate and empty queries at 4 stop positions; plus "
